@@ -33,6 +33,8 @@ type Gen struct {
 	// WrapLog (percent): wrap int / bool / string / float64 sub-expressions in a logging call, so that the
 	// order and the number of evaluations of every operand becomes observable in the call log
 	WrapLog int
+	// NilBool: boolean members behind a nil-safe step (nil for a nil receiver) may stand where a bool is required
+	NilBool bool
 	// Zoo (percent): take an access path into the zoo (zoo.go) where a value of its type is needed
 	Zoo int
 	// statistics
@@ -717,6 +719,19 @@ func (g *Gen) boolean(d int) *X {
 	}
 	if g.Nil {
 		ps = append(ps, prod{5, func() *X { return g.nilCompare(d) }})
+	}
+	if g.NilBool {
+		// a boolean member reached through a nil-safe step: nil - not false - for a nil receiver. Where a bool is
+		// required that is a failure of the evaluation (only checks that compare two library runs enable this)
+		ps = append(ps, prod{4, func() *X {
+			recvs := []*X{Var("P", TPElem), Field(Var("N", TNested), "PE", TPElem), Idx(Var("PEs", TPElems), LitInt(g.pick(3, "nbi")), TPElem)}
+			if n := len(g.Clos); n > 0 && g.Clos[n-1].Eq(TPElem) {
+				recvs = append(recvs, &X{K: "ptr", Ty: TPElem}, &X{K: "ptr", Ty: TPElem})
+			}
+			x := Field(recvs[g.pick(len(recvs), "nbr")], "Ok", TBool)
+			x.NilSafe = true
+			return x
+		}})
 	}
 	if g.ConstBias > 0 {
 		ps = append(ps, prod{10, func() *X { return g.constMembership(d) }}, prod{3, func() *X { return g.PureCall(TBool, d) }},
